@@ -33,7 +33,15 @@ def runOp (args : List String) : String :=
     match Operator.ofName name, decVal l, decVal r with
     | some op, some l, some r =>
       let l := normalise l; let r := normalise r
-      result (encRes (execOperator op l r)) (encExpect (Spec.binary (specOp op) l r))
+      -- a repetition whose result exceeds 16 MiB: "more memory than the machine has" — excluded by the statement
+      let huge (s : String) (n : Int64) : Bool := n.toInt ≥ 0 && s.utf8ByteSize * n.toInt.toNat > 16777216
+      let mem : Bool := match op, l, r with
+        | .mul, .str s, .int n => huge s n
+        | .mul, .int n, .str s => huge s n
+        | _, _, _ => false
+      let model := encRes (execOperator op l r)
+      if mem then result (if model == "PANIC" then "MEM-EXCLUDED" else model) "any"
+      else result model (encExpect (Spec.binary (specOp op) l r))
     | _, _, _ => "bad-op"
   | _ => "bad-op"
 
